@@ -252,11 +252,14 @@ CFG = {
                  "innermost-first for nested try statements, that an abrupt completion of finally overrides and a normal one "
                  "re-establishes the pending completion, that a for-of calls return() exactly once iff the loop is left abruptly by "
                  "its body and never after exhaustion or a throwing next(), the UpdateEmpty completion-value rules, and that "
-                 "uncatchable payloads run nothing. goja's compiler/VM skeleton is transcribed as model I (compile + vm_step); "
-                 "compile_control_correct (I refines S) is NOT proved: it is refuted on the current tree by two witnesses "
-                 "(C08-N2, F12; C08-N1 was repaired in /repo and the model follows); on I only local lemmas hold (uncatchable unwinding is silent under an interrupt or without open "
-                 "iterators, leaveTry/leaveFinally round trip). Both models are tied to /repo on every run: 3000 (quick) / 200000 (thorough) "
-                 "generated programs are run in goja and their event log + final completion compared with S (oracle) and I by vm_compute."),
+                 "uncatchable payloads run nothing. goja's compiler/VM skeleton is transcribed as model I (compile + vm_step). "
+                 "compile_control_correct_partial: in function-body mode, for every program without for-of and without a direct "
+                 "break/continue in a finally list (any nesting of try/catch/finally, three loop kinds, labels, if, blocks, "
+                 "break/continue/return/throw/uncatchable anywhere), running compile(prog) on the VM model yields S's event trace and "
+                 "completion (return value included when no return sits inside a finally block) and leaves try/iterator/operand "
+                 "stacks at entry values. uncatchable_runs_nothing holds on I for every VM state (F12 repaired). Open findings "
+                 "C08-N2, N4, N5, N6, N7 are exhibited by refuted-lemmas on I. Both models are tied to /repo on every run: 3000 (quick) / "
+                 "200000 (thorough) generated programs are run in goja and their event log + final completion compared with S (oracle) and I by vm_compute."),
         "note": ("trusted: Coq kernel + vm_compute; the hand transcription (coq/C08/Model.v); the Go harness (JS printer, event log). "
                  "Open findings on the current tree are recognised by narrow predicates AND by agreement with the faithful model I."),
         "technique": "Rocq proofs over a completion-record semantics + transcribed compiler/VM model + differential correspondence against /repo via vm_compute",
